@@ -1,4 +1,6 @@
 import Rpcx.Model.Fanout
+import Rpcx.Lemmas.FanoutConc
+import Rpcx.Gen.Fanout
 /-
   C17: Broadcast, Fork and Inform report what the servers actually did – for any number of
   contacted servers, any outcome vector and any completion order.
@@ -71,6 +73,169 @@ theorem inform_receipts (order : List Srv) :
   refine ⟨by simp [inform], ?_⟩
   intro i h
   exact ⟨by simpa [inform] using h, by simp [inform], by simp [inform], by simp [inform]⟩
+
+
+/-! ### every schedule of the worker goroutines and the caller's loop
+  `Model/FanoutConc`: per contacted server a worker (call → record → signal), the caller's receive
+  loop, and ANY interleaving of their steps.  The verdict theorems above are about completion orders;
+  these are about histories – in particular the caller may return while workers are still running. -/
+
+open Rpcx.FanC in
+theorem count_bad_zero_iff (srvs : List Srv) (ws : List W) (hm : ws.map (·.srv) = srvs) :
+    ws.countP bad = 0 ↔ ∀ s ∈ srvs, s.ok = true := by
+  rw [List.countP_eq_zero, ← hm]
+  simp only [List.mem_map, bad]
+  constructor
+  · rintro h s ⟨w, hw, rfl⟩; have := h w hw; simpa using this
+  · intro h w hw; have := h w.srv ⟨w, hw, rfl⟩; simp [this]
+
+open Rpcx.FanC in
+theorem witness_of_count (srvs : List Srv) (ws : List W) (hm : ws.map (·.srv) = srvs) (r : Nat)
+    (h : 1 ≤ ws.countP (fun w => isDone w && w.srv.ok && w.srv.reply == r)) :
+    ∃ s ∈ srvs, s.ok = true ∧ s.reply = r := by
+  have hpos : 0 < ws.countP (fun w => isDone w && w.srv.ok && w.srv.reply == r) := h
+  rw [List.countP_pos_iff] at hpos
+  obtain ⟨w, hw, hp⟩ := hpos
+  simp at hp
+  exact ⟨w.srv, by rw [← hm]; exact List.mem_map.mpr ⟨w, hw, rfl⟩, hp.1.2, hp.2⟩
+
+open Rpcx.FanC in
+/-- **Broadcast, every schedule**: whenever the caller's loop has returned – however the workers'
+    record and signal steps and the loop's receives interleave, and whether or not other workers are
+    still running – it reports success exactly when every contacted server answered successfully -/
+theorem conc_broadcast_iff (srvs : List Srv) (evs : List Ev) (v : Bool)
+    (h : (run .broadcast srvs evs).ret = some v) : v = true ↔ ∀ s ∈ srvs, s.ok = true := by
+  have inv := inv_run .broadcast srvs evs
+  have hv := inv.verdict v h
+  simp only [Verdict] at hv
+  rw [hv.1]
+  exact count_bad_zero_iff srvs _ (run_srvs .broadcast srvs evs)
+
+open Rpcx.FanC in
+/-- …and then the caller's reply holds the value of a server that succeeded -/
+theorem conc_broadcast_reply (srvs : List Srv) (evs : List Ev) (hne : srvs ≠ [])
+    (h : (run .broadcast srvs evs).ret = some true) :
+    ∃ r, (run .broadcast srvs evs).reply = some r ∧ ∃ s ∈ srvs, s.ok = true ∧ s.reply = r := by
+  have inv := inv_run .broadcast srvs evs
+  have hm := run_srvs .broadcast srvs evs
+  have hv := inv.verdict true h
+  simp only [Verdict] at hv
+  have hbad := hv.1.mp (by trivial)
+  have hdone := hv.2 (by trivial)
+  have hlen : 0 < (run .broadcast srvs evs).ws.length := by
+    rw [inv.len]; exact List.length_pos_iff.mpr hne
+  have hall : (run .broadcast srvs evs).ws.countP (fun w => isDone w && w.srv.ok) = (run .broadcast srvs evs).ws.length := by
+    rw [List.countP_eq_length]
+    rw [List.countP_eq_length] at hdone
+    rw [List.countP_eq_zero] at hbad
+    intro w hw
+    have h1 := hdone w hw; have h2 := hbad w hw
+    simp [bad] at h2; simp [h1, h2]
+  cases hr : (run .broadcast srvs evs).reply with
+  | none => have := inv.replyNone hr; omega
+  | some r => exact ⟨r, rfl, witness_of_count srvs _ hm r (inv.replySome r hr)⟩
+
+open Rpcx.FanC in
+/-- **Fork, every schedule**: success exactly when at least one contacted server answered successfully -/
+theorem conc_fork_iff (srvs : List Srv) (evs : List Ev) (v : Bool)
+    (h : (run .fork srvs evs).ret = some v) : v = true ↔ ∃ s ∈ srvs, s.ok = true := by
+  have inv := inv_run .fork srvs evs
+  have hm := run_srvs .fork srvs evs
+  have hv := inv.verdict v h
+  simp only [Verdict] at hv
+  rw [hv.1]
+  have hb := count_bad_zero_iff
+  constructor
+  · intro hlt
+    by_cases hex : ∃ s ∈ srvs, s.ok = true
+    · exact hex
+    · exfalso
+      have hall : (run .fork srvs evs).ws.countP bad = (run .fork srvs evs).ws.length := by
+        rw [List.countP_eq_length]
+        intro w hw
+        have hs : w.srv ∈ srvs := by rw [← hm]; exact List.mem_map.mpr ⟨w, hw, rfl⟩
+        cases hk : w.srv.ok
+        · simp [bad, hk]
+        · exact absurd ⟨w.srv, hs, hk⟩ hex
+      omega
+  · rintro ⟨s, hs, hok⟩
+    have hle : (run .fork srvs evs).ws.countP bad ≤ (run .fork srvs evs).ws.length := List.countP_le_length
+    rcases Nat.lt_or_ge ((run .fork srvs evs).ws.countP bad) (run .fork srvs evs).ws.length with hlt | hge
+    · exact hlt
+    · exfalso
+      have heq : (run .fork srvs evs).ws.countP bad = (run .fork srvs evs).ws.length := by omega
+      rw [List.countP_eq_length] at heq
+      rw [← hm] at hs
+      obtain ⟨w, hw, rfl⟩ := List.mem_map.mp hs
+      have := heq w hw
+      simp [bad, hok] at this
+
+open Rpcx.FanC in
+/-- …and on success the caller's reply holds the value of a server that succeeded – already at the
+    moment Fork returns, although other workers may still be running -/
+theorem conc_fork_reply (srvs : List Srv) (evs : List Ev) (h : (run .fork srvs evs).ret = some true) :
+    ∃ r, (run .fork srvs evs).reply = some r ∧ ∃ s ∈ srvs, s.ok = true ∧ s.reply = r := by
+  have inv := inv_run .fork srvs evs
+  have hm := run_srvs .fork srvs evs
+  have hv := inv.verdict true h
+  simp only [Verdict] at hv
+  have hone := hv.2 (by trivial)
+  cases hr : (run .fork srvs evs).reply with
+  | none => have := inv.replyNone hr; omega
+  | some r => exact ⟨r, rfl, witness_of_count srvs _ hm r (inv.replySome r hr)⟩
+
+open Rpcx.FanC in
+/-- **Inform, every schedule**: when it returns every worker has recorded and signalled; the verdict is
+    success exactly when every server succeeded, and the receipts are – as a multiset – exactly one per
+    contacted server, each carrying that server's own reply and its own error -/
+theorem conc_inform (srvs : List Srv) (evs : List Ev) (v : Bool) (h : (run .inform srvs evs).ret = some v) :
+    (v = true ↔ ∀ s ∈ srvs, s.ok = true)
+    ∧ (run .inform srvs evs).receipts.Perm (inform srvs) := by
+  have inv := inv_run .inform srvs evs
+  have hm := run_srvs .inform srvs evs
+  have hv := inv.verdict v h
+  simp only [Verdict] at hv
+  refine ⟨by rw [hv.1]; exact count_bad_zero_iff srvs _ hm, ?_⟩
+  rw [List.perm_iff_count]
+  intro rc
+  rw [inv.rcpts rc]
+  have hsig := hv.2
+  rw [List.countP_eq_length] at hsig
+  have hcongr : (run .inform srvs evs).ws.countP (fun w => isDone w && rcOf w == rc)
+      = (run .inform srvs evs).ws.countP (fun w => rcOf w == rc) := by
+    apply List.countP_congr
+    intro w hw
+    have := hsig w hw
+    simp [isSig] at this
+    simp [isDone, this]
+  have e : inform srvs = (run .inform srvs evs).ws.map rcOf := by
+    have : inform srvs = ((run .inform srvs evs).ws.map (·.srv)).map (fun s => (⟨s.addr, s.reply, s.ok⟩ : Receipt)) := by
+      rw [hm]; rfl
+    rw [this, List.map_map]; rfl
+  rw [hcongr, e, List.count_eq_countP, List.countP_map]
+  apply List.countP_congr
+  intro w _
+  simp [Function.comp]
+
+open Rpcx.FanC in
+/-- non-vacuity: a Fork over [failing, succeeding] that returns success while the first worker has not
+    even recorded its failure; a Broadcast over the same servers that returns an error; an Inform that
+    returns both receipts -/
+example :
+    (run .fork [⟨"a", false, 0⟩, ⟨"b", true, 2⟩] [.finish 1, .signal 1, .recv]).ret = some true
+    ∧ (run .fork [⟨"a", false, 0⟩, ⟨"b", true, 2⟩] [.finish 1, .signal 1, .recv]).reply = some 2
+    ∧ (run .broadcast [⟨"a", false, 0⟩, ⟨"b", true, 2⟩] [.finish 1, .finish 0, .signal 0, .signal 1, .recv]).ret = some false
+    ∧ ((run .inform [⟨"a", false, 0⟩, ⟨"b", true, 2⟩] [.finish 1, .finish 0, .signal 0, .signal 1, .recv, .recv]).receipts).length = 2 := by
+  decide
+
+/-- the tie of the goroutine-level model: in the CURRENT source each of Broadcast, Fork and Inform starts
+    a worker goroutine in which everything that records the outcome (error append, one-time reply copy,
+    receipt append) happens before the single completion signal, and the signal is sent on every path –
+    the program `call → record → signal` of a worker in `Model/FanoutConc` -/
+theorem tie_fanout_record_before_signal :
+    Gen.fanWorkers.length = 3
+    ∧ Gen.fanWorkers.all (fun w => w.found && w.signals == 1 && decide (1 ≤ w.records) && w.recordBeforeSignal && w.signalOnEveryPath) = true := by
+  decide
 
 /-- Regression witness D26: with the SHARED error object in every receipt, a successful
     server's receipt shows an error as soon as any other server failed – and, because a non-nil
